@@ -88,7 +88,13 @@ class _Helper:
 
     def _inlinable(self, decos) -> bool:
         n = self.node
-        if any(d not in ("staticmethod",) for d in decos):
+        # a memoised function of hashable arguments that is one expression is that expression (the in-place mutation of a
+        # cached result is a separate, construct-level rule that reads the tree as written)
+        memo = [d for d in decos if d.split("(")[0].split(".")[-1] in ("lru_cache", "cache")]
+        body_ = [s_ for s_ in n.body if not (isinstance(s_, ast.Expr) and isinstance(s_.value, ast.Constant))]
+        if memo and not (len(body_) == 1 and isinstance(body_[0], ast.Return) and body_[0].value is not None):
+            return False
+        if any(d not in ("staticmethod",) and d not in memo for d in decos):
             return False
         a = n.args
         if a.vararg or a.posonlyargs:
@@ -1073,6 +1079,429 @@ def _beta_reduce_local_functions(fn: ast.FunctionDef) -> bool:
     return changed
 
 
+def _desugar_walrus_and_partial(fn: ast.FunctionDef) -> bool:
+    """`if (m := E): ...` -> `m = E; if m: ...`;  `while T[(p := E)]: BODY` -> `while True: p = E; if not T[p]: break; BODY`
+    (walrus expressions that are evaluated unconditionally, i.e. not under and/or/if-else/comprehension);
+    `f = partial(g, a, k=v)` bound once and only called -> the calls `f(x)` become `g(a, x, k=v)`."""
+    changed = [False]
+
+    def unconditional_walruses(test: ast.expr):
+        """NamedExpr nodes of `test` in evaluation order, or None if one of them is evaluated conditionally"""
+        found = []
+        ok = [True]
+
+        def visit(e, cond):
+            if isinstance(e, ast.NamedExpr):
+                if cond:
+                    ok[0] = False
+                visit(e.value, cond)
+                found.append(e)
+                return
+            if isinstance(e, ast.BoolOp):
+                visit(e.values[0], cond)
+                for v in e.values[1:]:
+                    visit(v, True)
+                return
+            if isinstance(e, ast.IfExp):
+                visit(e.test, cond)
+                visit(e.body, True)
+                visit(e.orelse, True)
+                return
+            if isinstance(e, (ast.ListComp, ast.SetComp, ast.DictComp, ast.GeneratorExp, ast.Lambda)):
+                if any(isinstance(x, ast.NamedExpr) for x in ast.walk(e)):
+                    ok[0] = False
+                return
+            for ch in ast.iter_child_nodes(e):
+                if isinstance(ch, ast.expr):
+                    visit(ch, cond)
+
+        visit(test, False)
+        return found if ok[0] else None
+
+    class Strip(ast.NodeTransformer):
+        def visit_NamedExpr(self, node):
+            self.generic_visit(node)
+            return ast.copy_location(ast.Name(id=node.target.id, ctx=ast.Load()), node)
+
+    def rewrite(stmts):
+        out = []
+        for st in stmts:
+            for fld in ("body", "orelse", "finalbody"):
+                sub = getattr(st, fld, None)
+                if isinstance(sub, list) and sub and isinstance(sub[0], ast.stmt) and not isinstance(st, (ast.FunctionDef, ast.ClassDef)):
+                    setattr(st, fld, rewrite(sub))
+            if isinstance(st, ast.Try):
+                for hd in st.handlers:
+                    hd.body = rewrite(hd.body)
+            # `if a and (v := E) is not None and c: BODY` (no else): nested tests, the walrus under the conjuncts before it
+            if isinstance(st, ast.If) and not st.orelse and isinstance(st.test, ast.BoolOp) and isinstance(st.test.op, ast.And) and any(isinstance(x, ast.NamedExpr) for x in ast.walk(st.test)) \
+                    and unconditional_walruses(st.test) is None:
+                vals = st.test.values
+                i_ = next(i for i, v in enumerate(vals) if any(isinstance(x, ast.NamedExpr) for x in ast.walk(v)))
+                if i_ > 0 and not any(isinstance(x, ast.NamedExpr) for v in vals[:i_] for x in ast.walk(v)):
+                    outer_test = vals[0] if i_ == 1 else ast.BoolOp(op=ast.And(), values=vals[:i_])
+                    rest = vals[i_] if len(vals) - i_ == 1 else ast.BoolOp(op=ast.And(), values=vals[i_:])
+                    inner = ast.copy_location(ast.If(test=rest, body=st.body, orelse=[]), st)
+                    st = ast.copy_location(ast.If(test=outer_test, body=rewrite([inner]), orelse=[]), st)
+                    out.append(st)
+                    changed[0] = True
+                    continue
+            if isinstance(st, (ast.If, ast.While)) and any(isinstance(x, ast.NamedExpr) for x in ast.walk(st.test)):
+                ws = unconditional_walruses(st.test)
+                # nested walruses: the inner one is assigned first (post-order), each exactly once
+                if ws and not (isinstance(st, ast.While) and st.orelse):
+                    assigns = [ast.copy_location(ast.Assign(targets=[ast.Name(id=w.target.id, ctx=ast.Store())], value=Strip().visit(copy.deepcopy(w.value))), st) for w in ws]
+                    test = Strip().visit(st.test)
+                    if isinstance(st, ast.If):
+                        st.test = test
+                        out.extend(assigns)
+                        out.append(st)
+                    else:
+                        body = [b for b in st.body if not isinstance(b, ast.Pass)]
+                        brk = ast.copy_location(ast.If(test=_negate(test), body=[ast.Break()], orelse=[]), st)
+                        out.append(ast.copy_location(ast.While(test=ast.Constant(value=True), body=assigns + [brk] + body, orelse=[]), st))
+                    changed[0] = True
+                    continue
+            out.append(st)
+        return out
+
+    fn.body = rewrite(fn.body)
+    # partial objects that are only called
+    for x in list(ast.walk(fn)):
+        if not (isinstance(x, ast.Assign) and len(x.targets) == 1 and isinstance(x.targets[0], ast.Name) and isinstance(x.value, ast.Call)
+                and ast.unparse(x.value.func).split(".")[-1] == "partial" and x.value.args and not any(isinstance(a, ast.Starred) for a in x.value.args) and all(k.arg for k in x.value.keywords)):
+            continue
+        f = x.targets[0].id
+        stores = [y for y in ast.walk(fn) if isinstance(y, ast.Name) and y.id == f and isinstance(y.ctx, ast.Store)]
+        loads = [y for y in ast.walk(fn) if isinstance(y, ast.Name) and y.id == f and isinstance(y.ctx, ast.Load)]
+        calls = [y for y in ast.walk(fn) if isinstance(y, ast.Call) and isinstance(y.func, ast.Name) and y.func.id == f]
+        pargs = x.value.args[1:]
+        if len(stores) != 1 or len(loads) != len(calls) or not calls or not all(_simple(a) for a in pargs) or not all(_simple(k.value) for k in x.value.keywords):
+            continue
+        # the bound arguments are evaluated once at the partial() call: they must not be re-bound before the calls
+        bound_names = {n.id for a in list(pargs) + [k.value for k in x.value.keywords] for n in ast.walk(a) if isinstance(n, ast.Name)} | {n.id for n in ast.walk(x.value.args[0]) if isinstance(n, ast.Name)}
+        if any(isinstance(y, ast.Name) and y.id in bound_names and isinstance(y.ctx, (ast.Store, ast.Del)) and (getattr(y, "lineno", 0), getattr(y, "col_offset", 0)) > (x.lineno, x.col_offset) for y in ast.walk(fn)):
+            continue
+        for c in calls:
+            if any(k.arg is None for k in c.keywords) or any(k.arg in {q.arg for q in x.value.keywords} for k in c.keywords):
+                break
+        else:
+            for c in calls:
+                c.func = copy.deepcopy(x.value.args[0])
+                c.args = [copy.deepcopy(a) for a in pargs] + c.args
+                c.keywords = [copy.deepcopy(k) for k in x.value.keywords] + c.keywords
+
+            class Drop(ast.NodeTransformer):
+                def visit_Assign(self, node):
+                    return ast.Pass() if node is x else node
+
+            Drop().visit(fn)
+            changed[0] = True
+    # a local alias of a bound method / function (`current = self.state.get_current`) that is only called
+    for x in list(ast.walk(fn)):
+        if not (isinstance(x, ast.Assign) and len(x.targets) == 1 and isinstance(x.targets[0], ast.Name) and isinstance(x.value, ast.Attribute) and _simple(x.value)):
+            continue
+        f = x.targets[0].id
+        stores = [y for y in ast.walk(fn) if isinstance(y, ast.Name) and y.id == f and isinstance(y.ctx, ast.Store)]
+        loads = [y for y in ast.walk(fn) if isinstance(y, ast.Name) and y.id == f and isinstance(y.ctx, ast.Load)]
+        calls = [y for y in ast.walk(fn) if isinstance(y, ast.Call) and isinstance(y.func, ast.Name) and y.func.id == f]
+        if len(stores) != 1 or not calls or len(loads) != len(calls) or f in {a.arg for a in fn.args.args}:
+            continue
+        base_names = {n.id for n in ast.walk(x.value) if isinstance(n, ast.Name)}
+        # the object the method is looked up on must not be re-bound (nor the attribute path re-assigned) afterwards
+        if any(isinstance(y, ast.Name) and y.id in base_names and isinstance(y.ctx, (ast.Store, ast.Del)) and (getattr(y, "lineno", 0), getattr(y, "col_offset", 0)) > (x.lineno, x.col_offset) for y in ast.walk(fn)):
+            continue
+        txt = ast.unparse(x.value)
+        if any(isinstance(y, ast.Attribute) and isinstance(y.ctx, (ast.Store, ast.Del)) and txt.startswith(ast.unparse(y)) for y in ast.walk(fn)):
+            continue
+        for c in calls:
+            c.func = copy.deepcopy(x.value)
+
+        class DropA(ast.NodeTransformer):
+            def visit_Assign(self, node):
+                return ast.Pass() if node is x else node
+
+        DropA().visit(fn)
+        changed[0] = True
+    if changed[0]:
+        ast.fix_missing_locations(fn)
+    return changed[0]
+
+
+def _sink_call_into_branches(fn: ast.FunctionDef) -> bool:
+    """`if c: f = A else: f = partial(B, k=v)` directly followed by the one use `r = f(args)`  ->  the call written
+    into each branch (`r = A(args)` / `r = B(args, k=v)`): a callable chosen by a branch and called once."""
+    changed = [False]
+
+    def last_assign(block, f):
+        if block and isinstance(block[-1], ast.Assign) and len(block[-1].targets) == 1 and isinstance(block[-1].targets[0], ast.Name) and block[-1].targets[0].id == f:
+            return block[-1]
+        if block and isinstance(block[-1], ast.If) and block[-1].orelse:
+            a, b = last_assign(block[-1].body, f), last_assign(block[-1].orelse, f)
+            if a is not None and b is not None:
+                return (block[-1], a, b)
+        return None
+
+    def rewrite(stmts):
+        for st in stmts:
+            for fld in ("body", "orelse", "finalbody"):
+                sub = getattr(st, fld, None)
+                if isinstance(sub, list) and sub and isinstance(sub[0], ast.stmt) and not isinstance(st, (ast.FunctionDef, ast.ClassDef)):
+                    setattr(st, fld, rewrite(sub))
+            if isinstance(st, ast.Try):
+                for hd in st.handlers:
+                    hd.body = rewrite(hd.body)
+        out = []
+        i = 0
+        while i < len(stmts):
+            st = stmts[i]
+            nxt = stmts[i + 1] if i + 1 < len(stmts) else None
+            done = False
+            if isinstance(st, ast.If) and st.orelse and nxt is not None and isinstance(nxt, (ast.Assign, ast.Return, ast.Expr)) and isinstance(nxt.value, ast.Call) and isinstance(nxt.value.func, ast.Name):
+                f = nxt.value.func.id
+                uses = [y for y in ast.walk(fn) if isinstance(y, ast.Name) and y.id == f]
+                leaves = []
+
+                def collect(block):
+                    r = last_assign(block, f)
+                    if r is None:
+                        return False
+                    if isinstance(r, tuple):
+                        return collect(r[0].body) and collect(r[0].orelse)
+                    leaves.append((block, r))
+                    return True
+
+                if collect(st.body) and collect(st.orelse) and len(uses) == len(leaves) + 1 and f not in {a.arg for a in fn.args.args} \
+                        and not any(isinstance(y, ast.Name) and y.id == f for a in list(nxt.value.args) + [k.value for k in nxt.value.keywords] for y in ast.walk(a)):
+                    ok = True
+                    plans = []
+                    for (block, asg) in leaves:
+                        v = asg.value
+                        call = copy.deepcopy(nxt.value)
+                        if isinstance(v, ast.Call) and ast.unparse(v.func).split(".")[-1] == "partial" and v.args and all(k.arg for k in v.keywords) and not any(isinstance(a, ast.Starred) for a in v.args):
+                            if {k.arg for k in v.keywords} & {k.arg for k in call.keywords}:
+                                ok = False
+                                break
+                            call.func = v.args[0]
+                            call.args = list(v.args[1:]) + call.args
+                            call.keywords = call.keywords + list(v.keywords)
+                        elif _simple(v):
+                            call.func = v
+                        else:
+                            ok = False
+                            break
+                        new_st = copy.deepcopy(nxt)
+                        new_st.value = call
+                        plans.append((block, asg, new_st))
+                    if ok:
+                        for (block, asg, new_st) in plans:
+                            block[-1] = ast.copy_location(new_st, asg)
+                        out.append(st)
+                        i += 2
+                        changed[0] = True
+                        done = True
+            if not done:
+                out.append(st)
+                i += 1
+        return out
+
+    fn.body = rewrite(fn.body)
+    if changed[0]:
+        ast.fix_missing_locations(fn)
+    return changed[0]
+
+
+def _open_close_to_with(fn: ast.FunctionDef) -> bool:
+    """`h = open(..)` directly followed by `try: BODY finally: h.close()`  ->  `with open(..) as h: BODY`."""
+    changed = [False]
+
+    def rewrite(stmts):
+        for st in stmts:
+            for fld in ("body", "orelse", "finalbody"):
+                sub = getattr(st, fld, None)
+                if isinstance(sub, list) and sub and isinstance(sub[0], ast.stmt) and not isinstance(st, (ast.FunctionDef, ast.ClassDef)):
+                    setattr(st, fld, rewrite(sub))
+            if isinstance(st, ast.Try):
+                for hd in st.handlers:
+                    hd.body = rewrite(hd.body)
+        out = []
+        i = 0
+        while i < len(stmts):
+            st = stmts[i]
+            nxt = stmts[i + 1] if i + 1 < len(stmts) else None
+            if isinstance(st, ast.Assign) and len(st.targets) == 1 and isinstance(st.targets[0], ast.Name) and isinstance(st.value, ast.Call) and ast.unparse(st.value.func) in ("open", "io.open") \
+                    and isinstance(nxt, ast.Try) and not nxt.handlers and not nxt.orelse and len(nxt.finalbody) == 1 and isinstance(nxt.finalbody[0], ast.Expr) \
+                    and ast.unparse(nxt.finalbody[0].value) == f"{st.targets[0].id}.close()":
+                out.append(ast.copy_location(ast.With(items=[ast.withitem(context_expr=st.value, optional_vars=ast.Name(id=st.targets[0].id, ctx=ast.Store()))], body=nxt.body), st))
+                changed[0] = True
+                i += 2
+                continue
+            out.append(st)
+            i += 1
+        return out
+
+    fn.body = rewrite(fn.body)
+    return changed[0]
+
+
+def _desugar_match(fn: ast.FunctionDef) -> bool:
+    """`match subj:` over a plain name / attribute chain with simple patterns (None / True / False, literal values,
+    `Class()` without sub-patterns, `_`, `... as name`, alternatives of these) -> the if / elif chain it abbreviates."""
+    if not hasattr(ast, "Match"):
+        return False
+    changed = [False]
+
+    def test_of(pat, subj):
+        """(test expression or None for 'always', [names to bind to the subject])"""
+        if isinstance(pat, ast.MatchSingleton):
+            return ast.Compare(left=copy.deepcopy(subj), ops=[ast.Is()], comparators=[ast.Constant(value=pat.value)]), []
+        if isinstance(pat, ast.MatchValue) and isinstance(pat.value, (ast.Constant, ast.Attribute, ast.UnaryOp)):
+            return ast.Compare(left=copy.deepcopy(subj), ops=[ast.Eq()], comparators=[pat.value]), []
+        if isinstance(pat, ast.MatchClass) and not pat.patterns and not pat.kwd_patterns:
+            return ast.Call(func=ast.Name(id="isinstance", ctx=ast.Load()), args=[copy.deepcopy(subj), pat.cls], keywords=[]), []
+        if isinstance(pat, ast.MatchAs):
+            if pat.pattern is None:
+                return None, ([pat.name] if pat.name else [])
+            r = test_of(pat.pattern, subj)
+            if r is None:
+                return False
+            t, names = r
+            return t, names + ([pat.name] if pat.name else [])
+        if isinstance(pat, ast.MatchOr):
+            parts = [test_of(p_, subj) for p_ in pat.patterns]
+            if any(r is False or r is None or r[0] is None or r[1] for r in parts):
+                return False
+            return ast.BoolOp(op=ast.Or(), values=[r[0] for r in parts]), []
+        return False
+
+    def rewrite(stmts):
+        out = []
+        for st in stmts:
+            for fld in ("body", "orelse", "finalbody"):
+                sub = getattr(st, fld, None)
+                if isinstance(sub, list) and sub and isinstance(sub[0], ast.stmt) and not isinstance(st, (ast.FunctionDef, ast.ClassDef)):
+                    setattr(st, fld, rewrite(sub))
+            if isinstance(st, ast.Try):
+                for hd in st.handlers:
+                    hd.body = rewrite(hd.body)
+            if isinstance(st, ast.Match):
+                for c in st.cases:
+                    c.body = rewrite(c.body)
+                if _simple(st.subject) and all(c.guard is None for c in st.cases):
+                    arms = []
+                    ok = True
+                    for c in st.cases:
+                        r = test_of(c.pattern, st.subject)
+                        if r is False:
+                            ok = False
+                            break
+                        t, names = r
+                        binds = [ast.copy_location(ast.Assign(targets=[ast.Name(id=n, ctx=ast.Store())], value=copy.deepcopy(st.subject)), st) for n in names]
+                        arms.append((t, binds + c.body))
+                    if ok and arms:
+                        node = None
+                        for (t, body) in reversed(arms):
+                            if t is None:
+                                node = body
+                            else:
+                                node = [ast.copy_location(ast.If(test=t, body=body, orelse=node or []), st)]
+                        out.extend(node)
+                        changed[0] = True
+                        continue
+            out.append(st)
+        return out
+
+    fn.body = rewrite(fn.body)
+    if changed[0]:
+        ast.fix_missing_locations(fn)
+    return changed[0]
+
+
+def _scalarise_local_objects(fn: ast.FunctionDef, classes: Dict[str, ast.ClassDef]) -> bool:
+    """A local object of a small new class -- `r = C(args)` bound once, every other use a field access `r.x` (its
+    methods already written out) -- is replaced by its fields as locals: the constructor's body with `self.x` -> `r__x`."""
+    changed = False
+    for st in list(ast.walk(fn)):
+        if not (isinstance(st, ast.Assign) and len(st.targets) == 1 and isinstance(st.targets[0], ast.Name) and isinstance(st.value, ast.Call) and isinstance(st.value.func, ast.Name)
+                and st.value.func.id in classes):
+            continue
+        r = st.targets[0].id
+        cdef = classes[st.value.func.id]
+        init = next((m for m in cdef.body if isinstance(m, ast.FunctionDef) and m.name == "__init__"), None)
+        if init is None or cdef.bases or any(isinstance(x, ast.Return) and x.value is not None for x in ast.walk(init)):
+            continue
+        stores = [y for y in ast.walk(fn) if isinstance(y, ast.Name) and y.id == r and isinstance(y.ctx, ast.Store)]
+        if len(stores) != 1 or r in {a.arg for a in fn.args.args}:
+            continue
+        parents = {}
+        for p_ in ast.walk(fn):
+            for c_ in ast.iter_child_nodes(p_):
+                parents[id(c_)] = p_
+        fields = set()
+        ok = True
+        for y in ast.walk(fn):
+            if isinstance(y, ast.Name) and y.id == r and isinstance(y.ctx, ast.Load):
+                par = parents.get(id(y))
+                if isinstance(par, ast.Attribute) and par.value is y and not (isinstance(parents.get(id(par)), ast.Call) and parents[id(par)].func is par and par.attr in {m.name for m in cdef.body if isinstance(m, ast.FunctionDef)}):
+                    fields.add(par.attr)
+                else:
+                    ok = False
+        # the constructor: plain statements over self.<field> and its parameters
+        for y in ast.walk(init):
+            if isinstance(y, ast.Name) and y.id == "self":
+                par_ok = any(isinstance(q, ast.Attribute) and q.value is y for q in ast.walk(init))
+                if not par_ok:
+                    ok = False
+        if not ok:
+            continue
+        params = [a.arg for a in init.args.args[1:]]
+        fake = ast.FunctionDef(name="__init__", args=init.args, body=init.body, decorator_list=[], returns=None)
+        b = _bind_simple(fake, params, st.value, f"__{r}", _assigned_names(fn))
+        if b is None:
+            continue
+        pre, ren = b
+
+        class Fields(ast.NodeTransformer):
+            def __init__(self, obj):
+                self.obj = obj
+
+            def visit_Attribute(self, node):
+                node = self.generic_visit(node)
+                if isinstance(node.value, ast.Name) and node.value.id == self.obj:
+                    return ast.copy_location(ast.Name(id=f"{r}__{node.attr}", ctx=node.ctx), node)
+                return node
+
+        body = [x for x in init.body if not (isinstance(x, ast.Expr) and isinstance(x.value, ast.Constant))]
+        new_init = pre + [Fields("self").visit(ren.visit(copy.deepcopy(x))) for x in body]
+        for x in new_init:
+            if isinstance(x, ast.AnnAssign) and x.value is not None:
+                pass
+        # annotated assignments `self.x: T = v` -> plain
+        new_init = [ast.Assign(targets=[x.target], value=x.value) if isinstance(x, ast.AnnAssign) and x.value is not None else x for x in new_init]
+
+        def rewrite(stmts):
+            out = []
+            for s_ in stmts:
+                if s_ is st:
+                    out.extend(new_init)
+                    continue
+                for fld in ("body", "orelse", "finalbody"):
+                    sub = getattr(s_, fld, None)
+                    if isinstance(sub, list) and sub and isinstance(sub[0], ast.stmt) and not isinstance(s_, (ast.FunctionDef, ast.ClassDef)):
+                        setattr(s_, fld, rewrite(sub))
+                if isinstance(s_, ast.Try):
+                    for hd in s_.handlers:
+                        hd.body = rewrite(hd.body)
+                out.append(s_)
+            return out
+
+        fn.body = rewrite(fn.body)
+        Fields(r).visit(fn)
+        ast.fix_missing_locations(fn)
+        changed = True
+    return changed
+
+
 def _sink_returns(fn: ast.FunctionDef) -> bool:
     """Single-exit spelling -> returns at the points of definition:
 
@@ -1336,11 +1765,13 @@ def _coalesce_phi(fn: ast.FunctionDef) -> bool:
                             if stores.get(t, 0) != 2 or stores.get(x, 0) != 1:
                                 continue
                             allowed = {id(n) for n in ast.walk(st.test)} | {id(keep.value)} | {id(n) for n in ast.walk(other.value)}
-                            if any(id(n) not in allowed for n in loads.get(x, [])):
-                                continue
                             # x's store is an earlier statement of this block, and nothing in between reads t
                             j = next((k for k in range(i - 1, -1, -1) if any(isinstance(n, ast.Name) and n.id == x and isinstance(n.ctx, ast.Store) for n in ast.walk(stmts[k]))), None)
                             if j is None or any(isinstance(n, ast.Name) and n.id == t for k in range(j, i) for n in ast.walk(stmts[k])):
+                                continue
+                            # reads of x between its store and the If see the value before the phi: they keep their meaning
+                            allowed |= {id(n) for k in range(j, i) for n in ast.walk(stmts[k])}
+                            if any(id(n) not in allowed for n in loads.get(x, [])):
                                 continue
                             hit = (st, keep, other, t, x)
                             return
@@ -1408,12 +1839,28 @@ def _guard_empty_iter_loops(fn: ast.FunctionDef) -> bool:
                 out.append(ast.copy_location(ast.If(test=test, body=[st], orelse=[]), st))
                 changed[0] = True
                 continue
+            # return (A if C else B), z  ->  r = A if C else B; return r, z   (the other elements are plain names / constants)
+            if (isinstance(st, ast.Return) or (isinstance(st, ast.Assign) and len(st.targets) == 1 and isinstance(st.targets[0], ast.Name))) and isinstance(st.value, ast.Tuple) \
+                    and sum(isinstance(e, ast.IfExp) for e in st.value.elts) == 1 and all(isinstance(e, ast.IfExp) or _simple(e) for e in st.value.elts):
+                i_ = next(i for i, e in enumerate(st.value.elts) if isinstance(e, ast.IfExp))
+                tmp_ = f"_ret{getattr(st, 'lineno', 0)}_{i_}"
+                out.append(ast.copy_location(ast.Assign(targets=[ast.Name(id=tmp_, ctx=ast.Store())], value=st.value.elts[i_]), st))
+                st.value.elts[i_] = ast.Name(id=tmp_, ctx=ast.Load())
+                out.append(st)
+                changed[0] = True
+                continue
             if isinstance(st, ast.Return) and isinstance(st.value, ast.IfExp):
                 ie = st.value
                 out.append(ast.copy_location(ast.If(test=ie.test, body=[ast.copy_location(ast.Return(value=ie.body), st)], orelse=[]), st))
                 out.extend(rewrite([ast.copy_location(ast.Return(value=ie.orelse), st)]))
                 changed[0] = True
                 continue
+            # frozenset(chain(a, b)) / set(chain(a, b)) / set().union(a, b): the union of its arguments (a set display of starred parts)
+            if isinstance(st, ast.Assign) and len(st.targets) == 1 and isinstance(st.targets[0], ast.Name) and isinstance(st.value, ast.Call) and isinstance(st.value.func, ast.Name) \
+                    and st.value.func.id in ("set", "frozenset") and len(st.value.args) == 1 and not st.value.keywords and isinstance(st.value.args[0], ast.Call) \
+                    and ast.unparse(st.value.args[0].func).split(".")[-1] in ("chain",) and not st.value.args[0].keywords and not any(isinstance(a, ast.Starred) for a in st.value.args[0].args):
+                st.value = ast.copy_location(ast.Set(elts=[ast.Starred(value=a, ctx=ast.Load()) for a in st.value.args[0].args]), st.value)
+                changed[0] = True
             if isinstance(st, ast.Assign) and len(st.targets) == 1 and isinstance(st.targets[0], ast.Name) and isinstance(st.value, ast.Set) and any(isinstance(e, ast.Starred) for e in st.value.elts):
                 t = st.targets[0].id
                 if not any(isinstance(n, ast.Name) and n.id == t for n in ast.walk(st.value)):
@@ -2002,6 +2449,15 @@ def _const_getattr(tree: ast.AST) -> bool:
     class T(ast.NodeTransformer):
         def visit_Call(self, node):
             node = self.generic_visit(node)
+            # dict(a=x, b=y) -> {"a": x, "b": y}
+            if isinstance(node.func, ast.Name) and node.func.id == "dict" and not node.args and node.keywords and all(k.arg for k in node.keywords):
+                changed[0] = True
+                return ast.copy_location(ast.Dict(keys=[ast.Constant(value=k.arg) for k in node.keywords], values=[k.value for k in node.keywords]), node)
+            # list(tuple(X)) / tuple(list(X)) / list(list(X)): one materialisation
+            if isinstance(node.func, ast.Name) and node.func.id in ("list", "tuple") and len(node.args) == 1 and not node.keywords and isinstance(node.args[0], ast.Call) \
+                    and isinstance(node.args[0].func, ast.Name) and node.args[0].func.id in ("list", "tuple") and len(node.args[0].args) == 1 and not node.args[0].keywords:
+                node.args[0] = node.args[0].args[0]
+                changed[0] = True
             if isinstance(node.func, ast.Name) and node.func.id == "getattr" and len(node.args) == 2 and not node.keywords and isinstance(node.args[1], ast.Constant) \
                     and isinstance(node.args[1].value, str) and node.args[1].value.isidentifier() and _simple(node.args[0]):
                 changed[0] = True
@@ -2077,6 +2533,19 @@ def _unroll_literal_loops(fn: ast.FunctionDef, consts: Optional[Dict[str, ast.ex
                 self.bare = True
             return node
 
+    # locals bound exactly once to a literal table whose entries are not re-bound anywhere in the function
+    local_tables: Dict[str, ast.expr] = {}
+    store_count: Dict[str, int] = {}
+    for x in ast.walk(fn):
+        if isinstance(x, ast.Name) and isinstance(x.ctx, (ast.Store, ast.Del)):
+            store_count[x.id] = store_count.get(x.id, 0) + 1
+    for x in ast.walk(fn):
+        if isinstance(x, ast.Assign) and len(x.targets) == 1 and isinstance(x.targets[0], ast.Name) and store_count.get(x.targets[0].id) == 1 and isinstance(x.value, (ast.Tuple, ast.List)) \
+                and 1 <= len(x.value.elts) <= 8 and all(literal(e) for e in x.value.elts):
+            used = {n.id for n in ast.walk(x.value) if isinstance(n, ast.Name)}
+            if not any(store_count.get(u, 0) > 0 and u not in {a.arg for a in fn.args.args} for u in used):
+                local_tables[x.targets[0].id] = x.value
+
     def rewrite(stmts):
         out = []
         for st in stmts:
@@ -2087,6 +2556,8 @@ def _unroll_literal_loops(fn: ast.FunctionDef, consts: Optional[Dict[str, ast.ex
             it_ = st.iter if isinstance(st, ast.For) else None
             if isinstance(it_, ast.Name) and it_.id in consts and it_.id not in local_stores:
                 it_ = consts[it_.id]  # a module-level constant table
+            elif isinstance(it_, ast.Name) and it_.id in local_tables:
+                it_ = local_tables[it_.id]  # a local bound once to a literal table
             if isinstance(st, ast.For) and not st.orelse and isinstance(it_, (ast.Tuple, ast.List)) and 1 <= len(it_.elts) <= 8 and all(literal(e) for e in it_.elts):
                 tg = st.target
                 # `if C: continue` guards at the top of the body -> the rest of the body under `not C`
@@ -2102,6 +2573,21 @@ def _unroll_literal_loops(fn: ast.FunctionDef, consts: Optional[Dict[str, ast.ex
                         st.body = nb
                 names = [tg.id] if isinstance(tg, ast.Name) else ([t.id for t in tg.elts] if isinstance(tg, ast.Tuple) and all(isinstance(t, ast.Name) for t in tg.elts) else None)
                 body_nodes = [x for b in st.body for x in ast.walk(b)]
+                # search loop `for .. in TABLE: if C: S; break`  ->  if C1: S1 / elif C2: S2 / ...
+                if names and len(st.body) == 1 and isinstance(st.body[0], ast.If) and not st.body[0].orelse and st.body[0].body and isinstance(st.body[0].body[-1], ast.Break) \
+                        and sum(isinstance(x, (ast.Break, ast.Continue)) for x in body_nodes) == 1 and not any(isinstance(x, (ast.FunctionDef, ast.Lambda)) for x in body_nodes) \
+                        and not any(isinstance(x, ast.Name) and x.id in names and isinstance(x.ctx, (ast.Store, ast.Del)) for x in body_nodes) \
+                        and all(record(e) is None and ((isinstance(tg, ast.Name)) or (isinstance(e, (ast.Tuple, ast.List)) and len(e.elts) == len(names))) for e in it_.elts):
+                    chain_ = None
+                    for e in reversed(it_.elts):
+                        sub = {names[0]: e} if isinstance(tg, ast.Name) else dict(zip(names, e.elts))
+                        arm = _Renamer(sub, {}).visit(copy.deepcopy(st.body[0]))
+                        arm.body = arm.body[:-1] or [ast.Pass()]
+                        arm.orelse = [chain_] if chain_ is not None else []
+                        chain_ = arm
+                    out.append(chain_)
+                    changed[0] = True
+                    continue
                 if names and not any(isinstance(x, (ast.Break, ast.Continue, ast.FunctionDef, ast.Lambda)) for x in body_nodes) \
                         and not any(isinstance(x, ast.Name) and x.id in names and isinstance(x.ctx, (ast.Store, ast.Del)) for x in body_nodes):
                     ok = True
@@ -2209,9 +2695,23 @@ def _unroll_local_dict_tables(fn: ast.FunctionDef) -> bool:
     def try_block(stmts: List[ast.stmt]) -> Optional[List[ast.stmt]]:
         for i, st in enumerate(stmts):
             if not (isinstance(st, ast.Assign) and len(st.targets) == 1 and isinstance(st.targets[0], ast.Name) and isinstance(st.value, ast.Dict) and st.value.keys
-                    and all(isinstance(k, ast.Constant) and isinstance(k.value, str) for k in st.value.keys) and all(_simple(v) for v in st.value.values)):
+                    and all(isinstance(k, ast.Constant) and isinstance(k.value, str) for k in st.value.keys)):
                 continue
             D = st.targets[0].id
+            prebind = []
+            if not all(_simple(v) for v in st.value.values):
+                # values that are not plain names are bound to locals first, in display order (evaluated once, as before)
+                if not all(k.value.isidentifier() for k in st.value.keys) or any(isinstance(n, ast.Name) and n.id.startswith(D + "__") for n in ast.walk(fn)):
+                    continue
+                newvals = []
+                for k, v in zip(st.value.keys, st.value.values):
+                    if _simple(v):
+                        newvals.append(v)
+                    else:
+                        nm_ = f"{D}__{k.value}"
+                        prebind.append(ast.copy_location(ast.Assign(targets=[ast.Name(id=nm_, ctx=ast.Store())], value=v), st))
+                        newvals.append(ast.Name(id=nm_, ctx=ast.Load()))
+                st = ast.copy_location(ast.Assign(targets=st.targets, value=ast.Dict(keys=st.value.keys, values=newvals)), st)
             total_uses = len(uses(fn, D))
             entries = [(k, v, None) for k, v in zip(st.value.keys, st.value.values)]
             seen_uses = 1
@@ -2272,7 +2772,7 @@ def _unroll_local_dict_tables(fn: ast.FunctionDef) -> bool:
                 break
             if not ok or loops == 0 or seen_uses != total_uses:
                 continue
-            out = stmts[:i]
+            out = stmts[:i] + prebind
             for j in range(i + 1, len(stmts)):
                 out.extend(plan[j] if j in plan else [stmts[j]])
             return out
@@ -2344,6 +2844,114 @@ def _merge_dict_builds(fn: ast.FunctionDef) -> bool:
         return out
 
     fn.body = rewrite(fn.body)
+    return changed[0]
+
+
+def _scalarise_local_dicts(fn: ast.FunctionDef) -> bool:
+    """A local dict with literal string keys that is built by item stores (top-level, or the same keys in both branches of
+    an if/else), read back only as `d["k"]`, and then used exactly once as a whole (an argument, a return value):
+    the items become locals `d__k` and the one whole use becomes the display `{"k": d__k, ...}` (insertion order)."""
+    changed = [False]
+
+    def key_of(t):
+        if isinstance(t, ast.Subscript) and isinstance(t.value, ast.Name) and isinstance(t.slice, ast.Constant) and isinstance(t.slice.value, str) and t.slice.value.isidentifier():
+            return t.value.id, t.slice.value
+        return None, None
+
+    def try_block(stmts):
+        for i, st in enumerate(stmts):
+            if not (isinstance(st, ast.Assign) and len(st.targets) == 1 and isinstance(st.targets[0], ast.Name) and isinstance(st.value, ast.Dict)
+                    and all(isinstance(k, ast.Constant) and isinstance(k.value, str) and k.value.isidentifier() for k in st.value.keys)):
+                continue
+            D = st.targets[0].id
+            all_uses = [x for x in ast.walk(fn) if isinstance(x, ast.Name) and x.id == D]
+            if sum(isinstance(x.ctx, ast.Store) for x in all_uses) != 1 or any(isinstance(n, ast.Name) and n.id.startswith(D + "__") for n in ast.walk(fn)):
+                continue
+            keys = [k.value for k in st.value.keys]
+            seen = 1
+            escape_j = None
+            ok = True
+            for j in range(i + 1, len(stmts)):
+                s2 = stmts[j]
+                uses_here = [x for x in ast.walk(s2) if isinstance(x, ast.Name) and x.id == D]
+                if not uses_here:
+                    continue
+                seen += len(uses_here)
+                parents = {}
+                for p_ in ast.walk(s2):
+                    for c_ in ast.iter_child_nodes(p_):
+                        parents[id(c_)] = p_
+                bare = [x for x in uses_here if not (isinstance(parents.get(id(x)), ast.Subscript) and parents[id(x)].value is x and key_of(parents[id(x)])[1] is not None)]
+                if bare:
+                    if len(bare) == 1 and isinstance(s2, (ast.Expr, ast.Return, ast.Assign)) and isinstance(bare[0].ctx, ast.Load):
+                        escape_j = j
+                        break
+                    ok = False
+                    break
+                # item stores: top-level, or matching key sets in both branches of an if/else made of item stores only
+                if isinstance(s2, ast.Assign) and len(s2.targets) == 1 and key_of(s2.targets[0])[0] == D:
+                    k = key_of(s2.targets[0])[1]
+                    if k not in keys:
+                        keys.append(k)
+                elif isinstance(s2, ast.If) and s2.orelse:
+                    def stored(block):
+                        ks = []
+                        for b in block:
+                            if isinstance(b, ast.Assign) and len(b.targets) == 1 and key_of(b.targets[0])[0] == D:
+                                ks.append(key_of(b.targets[0])[1])
+                            elif any(isinstance(x, ast.Subscript) and key_of(x)[0] == D and isinstance(x.ctx, ast.Store) for x in ast.walk(b)):
+                                return None
+                        return ks
+                    a, b = stored(s2.body), stored(s2.orelse)
+                    if a is None or b is None or set(a) != set(b):
+                        ok = False
+                        break
+                    for k in a:
+                        if k not in keys:
+                            keys.append(k)
+                elif any(isinstance(x, ast.Subscript) and key_of(x)[0] == D and isinstance(x.ctx, (ast.Store, ast.Del)) for x in ast.walk(s2)):
+                    ok = False
+                    break
+            if not ok or escape_j is None or seen != len(all_uses):
+                continue
+            # every read d["k"] must be of a key stored before it (in statement order)
+            class Rw(ast.NodeTransformer):
+                def visit_Subscript(self, node):
+                    d, k = key_of(node)
+                    if d == D:
+                        return ast.copy_location(ast.Name(id=f"{D}__{k}", ctx=node.ctx), node)
+                    return self.generic_visit(node)
+
+                def visit_Name(self, node):
+                    if node.id == D and isinstance(node.ctx, ast.Load):
+                        return ast.copy_location(ast.Dict(keys=[ast.Constant(value=k) for k in keys], values=[ast.Name(id=f"{D}__{k}", ctx=ast.Load()) for k in keys]), node)
+                    return node
+
+            init = [ast.copy_location(ast.Assign(targets=[ast.Name(id=f"{D}__{k.value}", ctx=ast.Store())], value=v), st) for k, v in zip(st.value.keys, st.value.values)]
+            new = stmts[:i] + init + [Rw().visit(s2) for s2 in stmts[i + 1:escape_j + 1]] + stmts[escape_j + 1:]
+            return new
+        return None
+
+    def rewrite(stmts):
+        for st in stmts:
+            for fld in ("body", "orelse", "finalbody"):
+                sub = getattr(st, fld, None)
+                if isinstance(sub, list) and sub and isinstance(sub[0], ast.stmt) and not isinstance(st, (ast.FunctionDef, ast.ClassDef)):
+                    setattr(st, fld, rewrite(sub))
+            if isinstance(st, ast.Try):
+                for hd in st.handlers:
+                    hd.body = rewrite(hd.body)
+        for _ in range(4):
+            r = try_block(stmts)
+            if r is None:
+                break
+            stmts = r
+            changed[0] = True
+        return stmts
+
+    fn.body = rewrite(fn.body)
+    if changed[0]:
+        ast.fix_missing_locations(fn)
     return changed[0]
 
 
@@ -2571,6 +3179,18 @@ def normalize_sources(sources: Dict[str, str], table: Optional[Set[str]] = None)
             modname = modname[: -len(".__init__")]
         tree = ast.parse(src)
         changed_any = False
+        # syntactic sugar first, in every function (helpers included): match statements, walrus tests, partial objects
+        # that are only called, open/close pairs
+        sugar = False
+        for fn_ in [x for x in ast.walk(tree) if isinstance(x, ast.FunctionDef)]:
+            sugar |= _desugar_match(fn_)
+            sugar |= _desugar_walrus_and_partial(fn_)
+            sugar |= _open_close_to_with(fn_)
+        if sugar:
+            changed_any = True
+            ast.fix_missing_locations(tree)
+            tree = ast.parse(ast.unparse(tree))
+            inlined.append(f"{modname}:<match / walrus / partial / open-close written out>")
         imported = _import_new_helpers(tree, modname, all_trees, table)
         if imported:
             changed_any = True
@@ -2717,12 +3337,20 @@ def normalize_sources(sources: Dict[str, str], table: Optional[Set[str]] = None)
             nts2 = {k: v for k, v in _namedtuple_table(tree).items() if _qual(modname, None, k) not in table}
             _const_getattr(tree)
             _inline_record_constants(tree, nts2)
+            base_classes_ = {q.split(":")[1].split(".")[0] for q in table if q.startswith(modname + ":") and "." in q.split(":")[1]}
+            new_classes = {c_.name: c_ for c_ in tree.body if isinstance(c_, ast.ClassDef) and c_.name not in base_classes_ and not c_.bases and not c_.decorator_list}
             for st in tree.body:
                 if isinstance(st, ast.FunctionDef):
                     _guard_empty_iter_loops(st)
                     _split_tuple_assigns(st)
                     _unroll_local_dict_tables(st)
+                    _scalarise_local_dicts(st)
                     _merge_dict_builds(st)
+                    _desugar_match(st)
+                    _desugar_walrus_and_partial(st)
+                    _open_close_to_with(st)
+                    _sink_call_into_branches(st)
+                    _scalarise_local_objects(st, new_classes)
                     _inline_local_closures(st)
                     _beta_reduce_local_functions(st)
                     _coalesce_aliases(st)
@@ -2738,7 +3366,13 @@ def normalize_sources(sources: Dict[str, str], table: Optional[Set[str]] = None)
                             _guard_empty_iter_loops(s2)
                             _split_tuple_assigns(s2)
                             _unroll_local_dict_tables(s2)
+                            _scalarise_local_dicts(s2)
                             _merge_dict_builds(s2)
+                            _desugar_match(s2)
+                            _desugar_walrus_and_partial(s2)
+                            _open_close_to_with(s2)
+                            _sink_call_into_branches(s2)
+                            _scalarise_local_objects(s2, new_classes)
                             _inline_local_closures(s2)
                             _beta_reduce_local_functions(s2)
                             _coalesce_aliases(s2)
@@ -2750,4 +3384,54 @@ def normalize_sources(sources: Dict[str, str], table: Optional[Set[str]] = None)
                             _thread_none_flags(s2)
             ast.fix_missing_locations(tree)
             out[rel] = ast.unparse(tree) + "\n"
+    # a new helper that was copied into every module that imports it and written out there is dead in its home module:
+    # drop the definition (and the now unused import aliases), so that rules scanning "every function" do not read a
+    # function nobody calls any more
+    copied = {}
+    for x in inlined:
+        if " (copied into " in x:
+            src, name = x.split(" (copied into ")[0].split(":")
+            copied.setdefault((src, name), set()).add(x.split(" (copied into ")[1].rstrip(")"))
+    if copied:
+        trees = {}
+        for rel, src in out.items():
+            try:
+                trees[rel] = ast.parse(src)
+            except SyntaxError:
+                continue
+        for (srcmod, name), _users in copied.items():
+            used = False
+            for rel, t in trees.items():
+                for n in ast.walk(t):
+                    if isinstance(n, ast.Name) and n.id == name and isinstance(n.ctx, ast.Load):
+                        used = True
+                    elif isinstance(n, ast.Attribute) and n.attr == name:
+                        used = True
+            if used:
+                continue
+            for rel, t in trees.items():
+                modname = rel[:-3].replace(os.sep, ".")
+                changed_t = False
+
+                class Drop(ast.NodeTransformer):
+                    def visit_ImportFrom(self, node):
+                        keep = [al for al in node.names if al.name != name]
+                        if len(keep) == len(node.names):
+                            return node
+                        nonlocal changed_t
+                        changed_t = True
+                        if not keep:
+                            return ast.Pass()
+                        node.names = keep
+                        return node
+
+                Drop().visit(t)
+                if modname == srcmod or modname.endswith("." + srcmod.split(".")[-1]):
+                    nb = [s_ for s_ in t.body if not (isinstance(s_, (ast.FunctionDef, ast.ClassDef)) and s_.name == name)]
+                    if len(nb) != len(t.body):
+                        t.body = nb
+                        changed_t = True
+                if changed_t:
+                    ast.fix_missing_locations(t)
+                    out[rel] = ast.unparse(t) + "\n"
     return out, inlined
